@@ -519,10 +519,11 @@ def compare_obs(env, chk, cj, base, other, bitwise, what):
         if bitwise or k in ("n_obs", "n_obs_per_ft"):
             ok = bool(same.all())
         else:
-            scale = a64.abs().max() if a64.numel() else a64.sum()
+            fin = a64[torch.isfinite(a64)]      # a nan / inf present on BOTH sides (same position) must not poison the envelope
+            scale = fin.abs().max() if fin.numel() else torch.zeros((), dtype=torch.float64)
             ok = bool((same | ((a64 - b64).abs() <= 2e-5 * (a64.abs() + scale) + 1e-30)).all())
         if not ok:
-            d = float((a64 - b64).abs().max())
+            d = float(torch.nan_to_num((a64 - b64).abs(), nan=0.0).max())
             chk.impl_failure(cj, f"{what}: '{k}' differs (max abs diff {d:.3g}; original {a64.reshape(-1)[:3].tolist()}, modified {b64.reshape(-1)[:3].tolist()})")
 
 
